@@ -440,7 +440,7 @@ Section WP4.
     destruct info as [li|]; cbn [opt_w] in H1.
     2:{ apply andb_prop in Hwf as [Hg Hbk]. destruct g; [discriminate|]. destruct blocks; [discriminate|].
         cbn [opt_w truthy] in H2, H3. inversion H1; inversion H2; inversion H3; subst. reflexivity. }
-    apply andb_prop in Hwf as [Hwf Hguard]. apply andb_prop in Hwf as [Hwf Hblocks].
+    apply andb_prop in Hwf as [Hwf Hblocks].
     apply andb_prop in Hwf as [Hli Hg].
     pose proof (len_bytes_cases v nb Hv) as Hnb.
     pose proof H1 as H10. unfold write_layer_info in H1. rewrite Hv in H1. cbn [bind] in H1.
